@@ -1,1 +1,77 @@
+(* Proofs/C09.v — lemmas for property C09. *)
+From Coq Require Import List Arith NArith Bool Lia.
+Import ListNotations.
 Require Import OV.Base.C09_HL OV.Gen.C09_Excutils OV.Model.C09.
+
+(* ------------------------------------------------------------------ translated helper bodies = hand-written versions *)
+
+Lemma sare_init_equiv : forall r0 lab st, sare_new r0 lab st = mksare r0 None None [] lab.
+Proof. reflexivity. Qed.
+
+Lemma force_equiv : forall h,
+  run_force h = let '(s', st', i) := force_hand (hs h) (hst h) in (with_st (with_s h s') st', HRaise i).
+Proof.
+  intros [[rr ty va tb0 lab] st lt lv lb at_ av ab chk ini p].
+  unfold run_force, force_hand, gen_force, raise_value; cbn.
+  destruct va as [i|]; destruct ty as [c|]; cbn; try reflexivity.
+  - destruct (tb_eqb (tb_of st i) tb0); reflexivity.
+  - destruct (tb_eqb (tb_of st i) tb0); reflexivity.
+  - destruct (ctor0 c); cbn; try reflexivity.
+    destruct (tb_eqb _ tb0); reflexivity.
+Qed.
+
+Lemma capture_equiv : forall chk s st,
+  do_capture chk s st =
+  let '(s', st', r) := capture_hand chk s st in
+  (s', st', match r with Some j => HRaise j | None => HRetSelf end).
+Proof.
+  intros chk [rr ty va tb0 lab] [hp n k l r].
+  unfold do_capture, capture_hand, hrun, gen_capture.
+  destruct k as [|i rest]; destruct chk; reflexivity.
+Qed.
+
+Lemma do_force_equiv : forall wf s st,
+  do_force wf s st = let '(s', st', i) := force_hand s st in (s', add_frame wf i st', Raised i).
+Proof.
+  intros wf s st. unfold do_force. rewrite force_equiv. cbn [hs hst hinit_state].
+  destruct (force_hand s st) as [[s' st'] i]. reflexivity.
+Qed.
+
+Lemma pop_push : forall i st, pop (push i st) = st.
+Proof. intros i [h n k l r]. reflexivity. Qed.
+
+Lemma exit_equiv : forall wf s st out,
+  with_exit FnExit gen_exit nopred wf s st out = exit_hand wf s st out.
+Proof.
+  intros wf [rr ty va tb0 lab] st out.
+  unfold with_exit, exit_hand, hrun, gen_exit.
+  destruct out as [|i].
+  - cbn -[run_force force_hand]. destruct rr; cbn -[run_force force_hand]; [|reflexivity].
+    rewrite force_equiv. cbn -[force_hand].
+    destruct (force_hand _ st) as [[s' st'] j]. reflexivity.
+  - cbn. destruct rr; cbn.
+    + destruct st; reflexivity.
+    + destruct st; reflexivity.
+Qed.
+
+Lemma filt_exit_equiv : forall p wf s st out,
+  with_exit FnFiltExit gen_filt_exit p wf s st out =
+  let '(st', out') := filt_exit_hand p wf st out in (s, st', out').
+Proof.
+  intros p wf s st out.
+  unfold with_exit, filt_exit_hand, hrun, gen_filt_exit, pred_exc.
+  destruct out as [|i]; cbn; [reflexivity|].
+  unfold call_pred; cbn.
+  replace (cls_of (push i st) i) with (cls_of st i) by reflexivity.
+  destruct (pv p (Some (cls_of st i))); cbn; try (destruct st; reflexivity).
+Qed.
+
+Lemma filt_call_equiv : forall p x s st, do_filt_call p x s st = filt_call_hand p x st.
+Proof.
+  intros p x s [hp n k l r].
+  unfold do_filt_call, filt_call_hand, hrun, gen_filt_call, pred_exc, raise_value.
+  destruct k as [|c rest]; destruct x as [i|]; cbn; unfold call_pred; cbn.
+  all: match goal with |- context [pv ?q ?a] => destruct (pv q a) end; cbn; try reflexivity.
+  all: try (match goal with |- context [Nat.eqb ?a ?b] => destruct (Nat.eqb a b); cbn; try reflexivity end).
+  all: match goal with |- context [tb_eqb ?a ?b] => destruct (tb_eqb a b); reflexivity end.
+Qed.
